@@ -133,10 +133,14 @@ class World:
         self.nstep = 0
         rng_ = rng
         self.scale_bits = scale_bits if scale_bits is not None else rng_.choice([10, 20, 30, 40, 50, 64, 66, 80, 96])
-        n_native = n_native or rng_.choice([2, 3])
+        n_native = n_native or rng_.choice([2, 3, 3, 4])
         n_cw20 = n_cw20 or rng_.choice([3, 4])
         denom_pool = ["uaura", "uusd", "ibc/27394FB092D2ECCD56123C74F36E4C1F926001CEADA9CA97EA622B25F41E5EB2", "utaura"]
         rng_.shuffle(denom_pool)
+        if rng_.random() < 0.35:
+            # two long token-factory denoms that share head and tail (same sub-denom, different creators)
+            denom_pool = ["factory/aura1fqj2redmssckrdeekhkcvd2kzp9f4nks4fctrt/uhalo",
+                          "factory/aura1uh24g2lc8hvvkaaf7awz25lrh5fptthu2dhq0n/uhalo"] + denom_pool
         self.natives = [("n", d) for d in denom_pool[:n_native]]
         self.decimals = {}
         srv.reset_log()
@@ -151,6 +155,10 @@ class World:
             if a in ("attacker", "trader1", "trader2", "lp1"):
                 for d in self.lookalikes.values():
                     bals.append([a, d, str(BAL)])
+        # worthless coins whose denom is spelled exactly like a (future) contract address: kind-confusion probes
+        self.addr_denoms = ["contract%d" % i for i in range(2, 8)]
+        for d in self.addr_denoms:
+            bals.append(["attacker", d, str(BAL)])
         r = srv.send({"op": "new", "balances": bals})
         self.codes = r["v"]
         self.factory = self._inst("factory", "owner", {"pair_code_id": self.codes["pair"], "token_code_id": self.codes["cw20"]}, admin="owner")
@@ -263,7 +271,7 @@ class World:
         contracts = [self.factory, self.router] + [p.addr for p in self.pairs]
         tok_contracts = [t[1] for t in self.tokens] + [p.lp for p in self.pairs] + [self.rogue]
         self.t_accounts = ACTORS + contracts + tok_contracts + self.extra_accounts
-        self.t_denoms = [d for _, d in self.natives] + sorted(self.lookalikes.values())
+        self.t_denoms = [d for _, d in self.natives] + sorted(self.lookalikes.values()) + self.addr_denoms
         self.t_tokens = tok_contracts
         self.t_contracts = contracts + tok_contracts
         self.srv.send({"op": "track", "accounts": self.t_accounts, "denoms": self.t_denoms,
